@@ -34,7 +34,7 @@ ASSUMPTIONS = [
     "the imported variable of a species may be its amount or its concentration; the representation is inferred from the imported initial value and must then hold for the derivatives",
     "identifier mapping id -> Python name is taken from pysbml's name_to_py (the statement asks for consistency, not for a particular spelling)",
 ]
-N = {"quick": 240, "thorough": 4000}
+N = {"quick": 240, "thorough": 40000}
 MIN_NONTRIVIAL = {"quick": 60, "thorough": 1200}
 CASE_TIMEOUT = 300
 
